@@ -25,7 +25,7 @@ def one(m, native, tier):
         verdicts = []
         for prop in m["props"]:
             cmd = ["python3-vt", os.path.join(HERE, "vc", "run.py"), "--property", prop, "--repo", d, "--tier", tier, "--evidence", os.path.join(d, f"ev_{prop}.json")]
-            if not native:
+            if not (native or m.get("native")):
                 cmd.append("--no-native")
             if m.get("only"):
                 cmd += ["--only", m["only"]]
